@@ -277,6 +277,18 @@ def place(cx):
             srcs = sorted({norm(d.node) for d in ds if d.node is not None})
             ok = set(srcs) <= {"%s.position.center" % st, "%s.position" % st} and bool(srcs)
             res.check("OCC-PLACE", "enclosing rectangle is centred at the state's position", ok, fk.mod, c, "Rectangle(.., center=%s <- %s)" % (cen, srcs), "the enclosing occupancy is not centred where the obstacle is", qualname=fk.name)
+    # the position region is measured in the frame of the reference orientation: rotated by its negative
+    for c in rects:
+        if len(c.args) != 4:
+            continue
+        ref = canon(c.args[3], None, None, params)
+        rots = [x for x in walk_no_nested(fk.fn) if isinstance(x, ast.Call) and isinstance(x.func, ast.Attribute) and x.func.attr == "rotate_translate_local" and canon(x.func.value, None, None, params) == "%s.position" % st]
+        res.check("OCC-PLACE", "uncertain position region is re-expressed in the reference frame", len(rots) >= 1, fk.mod, c, "%d rotations of %s.position" % (len(rots), st), "the extents of the position region are not measured along the reference orientation", qualname=fk.name)
+        for x in rots:
+            a = x.args[1] if len(x.args) > 1 else None
+            ok = a is not None and isinstance(a, ast.UnaryOp) and isinstance(a.op, ast.USub) and canon(a.operand, None, None, params) == ref
+            ok = ok and norm(x.args[0]).replace(" ", "") in ("np.array([0,0])", "np.array([0.0,0.0])", "np.zeros(2)")
+            res.check("OCC-PLACE", "position region rotated by minus the reference orientation about the origin", ok, fk.mod, x, norm(x), "the region is rotated the wrong way (or shifted): its extents are measured in another frame than the enclosing rectangle's, which then does not cover every admissible position", qualname=fk.name)
     # signature roles of rotate_translate_local
     for cname in ("Shape", "Rectangle", "Circle", "Polygon", "ShapeGroup"):
         c = repo.mod(SH).classes.get(cname)
@@ -441,16 +453,33 @@ def dispatch(cx):
                     v = r.value
                     ok = v is None or (isinstance(v, ast.Constant) and v.value is None) or canon(v, None, None, []) == "self.initial_state" or (isinstance(v, ast.Call) and v in dels)
                     res.check("OCC-DISPATCH", "state_at_time returns initial state / predicted state / None", ok, fk.mod, r, norm(r), "an unexpected value is returned as the state", qualname=fk.name)
-    # Prediction.occupancy_at_time_step
-    fk = cx.fn(P, "Prediction", "occupancy_at_time_step")
+    # every time-step lookup of the prediction / trajectory classes (base implementations and overrides)
+    n_lookup = 0
+    for rel, meth, lists in ((P, "occupancy_at_time_step", ("self.occupancy_set",)), (T, "state_at_time_step", ("self.state_list",))):
+        mod = repo.mod(rel)
+        for c in mod.classes.values():
+            f = c.methods.get(meth)
+            if f is None or (len(f.body) <= 2 and all(isinstance(x, (ast.Pass, ast.Expr)) for x in f.body)):
+                continue
+            n_lookup += 1
+            lookup_rule(cx, FnKey(c, f, mod), lists)
+    if n_lookup < 2:
+        raise AnalysisError("only %d time-step lookup methods found (2 confirmed)" % n_lookup)
+
+
+def lookup_rule(cx, fk, lists):
+    """A lookup by time step either searches the list and returns an element only under a time-step match, or indexes
+    it with (t - initial time step) under guards that imply 0 <= index < len."""
+    res = cx.res
     tp = [a.arg for a in fk.fn.args.args][1]
-    loops = [n for n in walk_no_nested(fk.fn) if isinstance(n, ast.For)]
-    ok = len(loops) == 1 and canon(loops[0].iter, None, None, []) == "self.occupancy_set"
-    res.check("OCC-DISPATCH", "occupancy_at_time_step searches the occupancy set", ok, fk.mod, loops[0] if loops else fk.fn, "for .. in %s" % (norm(loops[0].iter) if loops else "?"), "the stored occupancies are not what is searched", qualname=fk.name)
-    if loops:
-        lv = norm(loops[0].target)
-        rets = [r for r in ast.walk(loops[0]) if isinstance(r, ast.Return)]
-        res.check("OCC-DISPATCH", "occupancy_at_time_step returns from the search", len(rets) >= 1, fk.mod, loops[0], "no return in the loop", "a stored occupancy is never returned", qualname=fk.name)
+    rd = ReachingDefs(fk.fn)
+    loops = [n for n in walk_no_nested(fk.fn) if isinstance(n, ast.For) and canon(n.iter, rd, n, []) in lists]
+    subs = [n for n in walk_no_nested(fk.fn) if isinstance(n, ast.Subscript) and isinstance(n.ctx, ast.Load) and canon(n.value, rd, rd.stmt_of(n), []) in lists]
+    res.check("OCC-DISPATCH", "%s searches or indexes %s" % (fk.name, "/".join(lists)), bool(loops) or bool(subs), fk.mod, fk.fn, "%s: no loop over / subscript of %s" % (fk.name, lists), "the answer is not taken from the stored list", qualname=fk.name)
+    for lp in loops:
+        lv = norm(lp.target)
+        rets = [r for r in ast.walk(lp) if isinstance(r, ast.Return)]
+        res.check("OCC-DISPATCH", "%s returns from the search" % fk.name, len(rets) >= 1, fk.mod, lp, "no return in the loop", "a stored element is never returned", qualname=fk.name)
         for r in rets:
             guards = dominating_guards(fk.mod, r, stop=fk.fn)
             match = False
@@ -461,31 +490,22 @@ def dispatch(cx):
                     match = True
                 if isinstance(t, ast.Call) and isinstance(t.func, ast.Attribute) and t.func.attr in ("contains", "__contains__") and norm(t.func.value) == "%s.time_step" % lv and [norm(a) for a in t.args] == [tp]:
                     match = True
-            res.check("OCC-DISPATCH", "a stored occupancy is returned only if its time step matches", match and norm(r.value) == lv, fk.mod, r, "%s under %s" % (norm(r), sorted(("" if p else "not ") + norm(t) for t, p in guards)), "an occupancy of another time step is returned", qualname=fk.name)
-        last = fk.fn.body[-1]
-        ok = isinstance(last, ast.Return) and (last.value is None or (isinstance(last.value, ast.Constant) and last.value.value is None))
-        res.check("OCC-DISPATCH", "occupancy_at_time_step answers None when no time step matches", ok, fk.mod, last, norm(last), "outside the horizon something else than None is returned", qualname=fk.name)
-    # Trajectory.state_at_time_step
-    fk = cx.fn(T, "Trajectory", "state_at_time_step")
-    tp = [a.arg for a in fk.fn.args.args][1]
-    subs = [n for n in walk_no_nested(fk.fn) if isinstance(n, ast.Subscript) and isinstance(n.ctx, ast.Load) and canon(n.value, None, None, []) == "self.state_list"]
-    res.check("OCC-DISPATCH", "state_at_time_step reads the state list", len(subs) >= 1, fk.mod, fk.fn, "no subscript of the state list", "the state is not taken from the trajectory's list", qualname=fk.name)
-    rd = ReachingDefs(fk.fn)
+            res.check("OCC-DISPATCH", "a stored element is returned only if its time step matches", match and norm(r.value) == lv, fk.mod, r, "%s under %s" % (norm(r), sorted(("" if p else "not ") + norm(t) for t, p in guards)), "an element of another time step is returned", qualname=fk.name)
 
     def atoms2(e):
         t = canon(e, rd, None, [tp])
         if t == tp:
             return "t"
-        if t == "self.initial_time_step":
+        if t in ("self.initial_time_step", "self.trajectory.initial_time_step"):
             return "t0"
-        if t == "len(self.state_list)":
+        if t in tuple("len(%s)" % l for l in lists):
             return "n"
         return None
 
     for s in subs:
         idx = linear(ast.parse(canon(s.slice, rd, rd.stmt_of(s), [tp]), mode="eval").body, atoms2)
         ok = idx == {"t": 1, "t0": -1}
-        res.check("OCC-DISPATCH", "state index is (t - initial time step)", ok, fk.mod, s, norm(s), "the state at another offset than (t - initial time step) is returned: state and time step are mispaired", qualname=fk.name)
+        res.check("OCC-DISPATCH", "%s: index is (t - initial time step)" % fk.name, ok, fk.mod, s, norm(s), "the element at another offset than (t - initial time step) is returned: element and time step are mispaired", qualname=fk.name)
         guards = dominating_guards(fk.mod, s, stop=fk.fn)
         facts = []
         for t, pol in guards:
@@ -493,8 +513,15 @@ def dispatch(cx):
         if idx is not None:
             lo = implied(idx, False, facts)
             hi = implied(lin_sub({"n": 1}, idx), True, facts)
-            res.check("OCC-DISPATCH", "index guarded from below (t >= initial)", lo, fk.mod, s, "%s under %s" % (norm(s), sorted(norm(t) for t, _p in guards)), "a time step before the trajectory wraps around to a state from the end (negative index) instead of None", qualname=fk.name)
-            res.check("OCC-DISPATCH", "index guarded from above (t - initial < len)", hi, fk.mod, s, "%s under %s" % (norm(s), sorted(norm(t) for t, _p in guards)), "a time step after the horizon raises IndexError instead of None", qualname=fk.name)
+            res.check("OCC-DISPATCH", "%s: index guarded from below (t >= initial)" % fk.name, lo, fk.mod, s, "%s under %s" % (norm(s), sorted(norm(t) for t, _p in guards)), "a time step before the horizon wraps around to an element from the end (negative index) instead of None", qualname=fk.name)
+            res.check("OCC-DISPATCH", "%s: index guarded from above (t - initial < len)" % fk.name, hi, fk.mod, s, "%s under %s" % (norm(s), sorted(norm(t) for t, _p in guards)), "a time step after the horizon raises IndexError instead of None", qualname=fk.name)
+    # default answer: None on the fall-through path (or of the returned variable)
+    last = fk.fn.body[-1]
+    ok = isinstance(last, ast.Return) and (last.value is None or (isinstance(last.value, ast.Constant) and last.value.value is None))
+    if not ok and isinstance(last, ast.Return) and isinstance(last.value, ast.Name):
+        inits = [st for st in fk.fn.body if isinstance(st, ast.Assign) and norm(st.targets[0]) == last.value.id]
+        ok = bool(inits) and isinstance(inits[0].value, ast.Constant) and inits[0].value.value is None
+    res.check("OCC-DISPATCH", "%s answers None when no time step matches" % fk.name, ok, fk.mod, last, norm(last), "outside the horizon something else than None is returned", qualname=fk.name)
 
 
 # --------------------------------------------------------------------------- OCC-SCENARIO
